@@ -101,11 +101,147 @@ def job_rezone(ctx, mode, rep, ranges=None, utc=False, direct=False, tzh=(-99, 9
                    sample_every=500)
 
 
+# ---------------------------------------------------------------------------
+# dumping with a format that spells out a literal zone
+DATE_FORMS = {  # name -> (format text, representation, tokens)
+    "cal-ext": ("CCYY-MM-DD", "cal", [("Y", 4), "-", ("M", 2), "-", ("D", 2)]),
+    "cal-bas": ("CCYYMMDD", "cal", [("Y", 4), ("M", 2), ("D", 2)]),
+    "ord-ext": ("CCYY-DDD", "ord", [("Y", 4), "-", ("J", 3)]),
+    "ord-bas": ("CCYYDDD", "ord", [("Y", 4), ("J", 3)]),
+    "week-ext": ("CCYY-Www-D", "week", [("Y", 4), "-", "W", ("W", 2), "-", ("d", 1)]),
+    "week-bas": ("CCYYWwwD", "week", [("Y", 4), "W", ("W", 2), ("d", 1)]),
+    "xcal-ext": ("+XCCYY-MM-DD", "cal", [("S", 1), ("Y", 6), "-", ("M", 2), "-", ("D", 2)]),
+    "xord-bas": ("+XCCYYDDD", "ord", [("S", 1), ("Y", 6), ("J", 3)]),
+    "xweek-ext": ("+XCCYY-Www-D", "week", [("S", 1), ("Y", 6), "-", "W", ("W", 2), "-", ("d", 1)]),
+}
+TIME_FORMS = {"ext": ("hh:mm:ss", [("h", 2), ":", ("m", 2), ":", ("s", 2)]),
+              "bas": ("hhmmss", [("h", 2), ("m", 2), ("s", 2)])}
+# literal zone spellings and the offset each denotes (minutes carry the hour's sign)
+ZONES = {"Z": (0, 0), "+00:00": (0, 0), "+05:30": (5, 30), "-0330": (-3, -30), "-00:30": (0, -30), "+00:45": (0, 45),
+         "+14": (14, 0), "-12": (-12, 0), "+1245": (12, 45), "-23:59": (-23, -59), "+99:59": (99, 59), "-99:59": (-99, -59),
+         "+01": (1, 0), "-01:00": (-1, 0)}
+
+
+def job_dump(ctx, mode, src_rep, dform, tform, zone, ranges=None, tzh=(-99, 99)):
+    """TimePointDumper.dump(p, <date>T<time><literal zone>): the text spells, in the literal zone, valid local
+    fields of the instant of p (decoded here digit by digit; oracle instant), and ends with the literal."""
+    from symx import strs
+    from symx.strs import SymStr
+    data, dumpers = ctx.data, ctx.dumpers
+    C.set_mode(data, mode)
+    install_range_summary(data, mode)
+    from .c03 import install_weeks_summary
+    install_weeks_summary(data, mode)
+    dtext, frep, dtoks = DATE_FORMS[dform]
+    ttext, ttoks = TIME_FORMS[tform]
+    fmt = dtext + "T" + ttext + zone
+    zh, zm = ZONES[zone]
+    ned = 2 if dform.startswith("x") else 0
+    DUMPER = dumpers.TimePointDumper(num_expanded_year_digits=ned)
+    K, E = (0, 24), ((-99, 99) if ned else None)
+    ylim = (-999998, 999998) if ned else (1, 9998)
+    toks = dtoks + ["T"] + ttoks + list(zone)
+
+    def make(e):
+        p = C.point_input(e, data, "", src_rep, K=K, tzh=tzh, E=E)
+        p._num_expanded_year_digits = ned
+        return {"p": p}
+
+    def pre(i):
+        p = i["p"]
+        return z3.And(C.m_valid_point(mode, p, src_rep, True), L(p._year) >= ylim[0], L(p._year) <= ylim[1])
+
+    def body(i):
+        p = i["p"]
+        s = DUMPER.dump(p, fmt)
+        els = list(SymStr.lift(s))
+        # decode by position; every non-field character must be the format's literal
+        f, pos, lits_ok = {}, 0, True
+        for t in toks:
+            if isinstance(t, str):
+                for ch in t:
+                    c = els[pos] if pos < len(els) else None
+                    pos += 1
+                    if c is None or not bool(strs.char_eq(c, ch)):
+                        lits_ok = False
+                continue
+            kind, w = t
+            part = els[pos:pos + w]
+            pos += w
+            if len(part) != w:
+                lits_ok = False
+                break
+            if kind == "S":
+                c = part[0]
+                if bool(strs.char_eq(c, "-")):
+                    f["sign"] = -1
+                elif bool(strs.char_eq(c, "+")):
+                    f["sign"] = 1
+                else:
+                    lits_ok = False
+                    f["sign"] = 1
+                continue
+            v = 0
+            for c in part:
+                if not bool(strs.char_is_digit(c)):
+                    lits_ok = False
+                    break
+                v = v * 10 + ((c - 48) if strs._issym(c) else (ord(c) - 48))
+            f[kind] = v
+        if pos != len(els):
+            lits_ok = False
+        return s, f, lits_ok
+
+    def post(i, out):
+        if out[0] != "ok":
+            return [("dump with a literal zone renders", False)]
+        p = i["p"]
+        s, f, lits_ok = out[1]
+        if not lits_ok or "Y" not in f:
+            return [("the text has the format's shape and ends with the literal zone", False)]
+        y = f["Y"] * f.get("sign", 1)
+        if frep == "cal":
+            q = C.raw_point(data, y, "cal", f["M"], f["D"], f["h"], f["m"], f["s"], zh, zm)
+        elif frep == "ord":
+            q = C.raw_point(data, y, "ord", f["J"], None, f["h"], f["m"], f["s"], zh, zm)
+        else:
+            q = C.raw_point(data, y, "week", f["W"], f["d"], f["h"], f["m"], f["s"], zh, zm)
+        same_zone = z3.And(L(p._time_zone._hours) == zh, L(p._time_zone._minutes) == zm)
+        cs = [C.m_valid_point(mode, q, frep, True),
+              z3.Implies(L(q._hour_of_day) == 24, z3.And(L(p._hour_of_day) == 24, same_zone)),
+              L(C.m_instant(mode, q, frep)) == L(C.m_instant(mode, p, src_rep))]
+        if ned:
+            cs.append(z3.Implies(L(f["Y"]) == 0, z3.BoolVal(f.get("sign", 1) == 1)))
+        return [("the text has the format's shape and ends with the literal zone", True),
+                ("the spelled local fields are valid (24:00 only for a 24:00 point already in that zone, no negative "
+                 "zero year) and, read in the literal zone, denote the instant of p", z3.And(cs))]
+
+    def case_of(v, i):
+        return {"check": "dump", "mode": mode, "rep": src_rep, "fmt": fmt, "ned": ned, "zone": [zh, zm],
+                "frep": frep, "p": C.point_case(v, "", src_rep)}
+
+    def scen(i):
+        p = i["p"]
+        return {"dump: 24:00 input": conc(p._hour_of_day) == 24,
+                "dump: point already in the literal zone": conc(p._time_zone._hours) == zh and conc(p._time_zone._minutes) == zm}
+
+    def zsc(i):
+        p = i["p"]
+        return {"dump: 24:00 input": L(p._hour_of_day) == 24,
+                "dump: point already in the literal zone": z3.And(L(p._time_zone._hours) == zh, L(p._time_zone._minutes) == zm)}
+
+    return sym_run("dump[%s,%s,%s,%s]" % (mode, src_rep, fmt, ranges), make, pre, body, post, case_of,
+                   scenarios=scen, scenarios_z3=zsc, ranges=ranges,
+                   bounds={"format": fmt, "years": "%s..%s" % ylim, "source offset hours": list(tzh)}, sample_every=500)
+
+
 def replay(case, M):
     data = M.data
     mode = case["mode"]
     data.CALENDAR.set_mode(mode)
     try:
+        if case.get("check") == "dump":
+            return replay_dump(case, M)
         p = C.build_point(data, case["p"])
         if case["utc"]:
             r, want = p.to_utc(), (0, 0)
@@ -136,9 +272,112 @@ def replay(case, M):
         data.CALENDAR.set_mode("gregorian")
 
 
+def replay_dump(case, M):
+    """decode the dumped text with plain string slicing and compare instants through the concrete oracle"""
+    import re as _re
+    data, dumpers = M.data, M.dumpers
+    mode, fmt, ned = case["mode"], case["fmt"], case["ned"]
+    p = C.build_point(data, case["p"], ned=ned)
+    what = "TimePointDumper(%d).dump(%s, %r)" % (ned, C.describe_point(p), fmt)
+    try:
+        s = dumpers.TimePointDumper(num_expanded_year_digits=ned).dump(p, fmt)
+    except Exception as exc:
+        return True, "%s raised %s: %s" % (what, type(exc).__name__, exc)
+    frep = case["frep"]
+    date_re = {"cal": r"(?P<M>[0-9]{2})-?(?P<D>[0-9]{2})", "ord": r"(?P<J>[0-9]{3})",
+               "week": r"W(?P<W>[0-9]{2})-?(?P<d>[0-9])"}[frep]
+    # the literal zone is whatever follows 'ss' in the format
+    zone_text = fmt.split("ss", 1)[1]
+    pat = (r"^(?P<S>[-+])?(?P<Y>[0-9]{%d})-?" % (4 + ned)) + date_re + \
+        r"T(?P<h>[0-9]{2}):?(?P<m>[0-9]{2}):?(?P<s>[0-9]{2})" + _re.escape(zone_text) + "$"
+    m = _re.match(pat, s)
+    if not m or bool(ned) != bool(m.group("S")):
+        return True, "%s = %r does not have the format's shape / literal zone" % (what, s)
+    g = {k: int(v) for k, v in m.groupdict().items() if v is not None and k != "S"}
+    y = -g["Y"] if m.group("S") == "-" else g["Y"]
+    if m.group("S") == "-" and g["Y"] == 0:
+        return True, "%s = %r spells a negative zero year" % (what, s)
+    kw = {"year": y, "hour_of_day": g["h"], "minute_of_hour": g["m"], "second_of_minute": g["s"],
+          "time_zone_hour": case["zone"][0], "time_zone_minute": case["zone"][1]}
+    if frep == "cal":
+        kw["month_of_year"], kw["day_of_month"] = g["M"], g["D"]
+    elif frep == "ord":
+        kw["day_of_year"] = g["J"]
+    else:
+        kw["week_of_year"], kw["day_of_week"] = g["W"], g["d"]
+    q = C.raw_point(data, *_raw_args(kw, frep))
+    if not C.py_valid_point(mode, q, allow24=True):
+        return True, "%s = %r spells a field outside its legal range" % (what, s)
+    if g["h"] == 24 and not (p._hour_of_day == 24 and (p._time_zone._hours, p._time_zone._minutes) == tuple(case["zone"])):
+        return True, "%s = %r spells 24:00 for a point that is not a 24:00 point of that zone" % (what, s)
+    di = C.py_instant(mode, q) - C.py_instant(mode, p)
+    if di:
+        return True, "%s = %r denotes an instant %+d s away from the original" % (what, s, di)
+    return False, "%s = %r" % (what, s)
+
+
+def _raw_args(kw, rep):
+    if rep == "cal":
+        f1, f2 = kw["month_of_year"], kw["day_of_month"]
+    elif rep == "ord":
+        f1, f2 = kw["day_of_year"], None
+    else:
+        f1, f2 = kw["week_of_year"], kw["day_of_week"]
+    return (kw["year"], rep, f1, f2, kw["hour_of_day"], kw["minute_of_hour"], kw["second_of_minute"],
+            kw["time_zone_hour"], kw["time_zone_minute"])
+
+
+W_PINS = {"c": (0, 0), "q": (5, 5), "s": (0, 0)}       # week dates: year = 400K + 20 (53 weeks; the cycle index K stays symbolic)
+W_PINS2 = {"c": (3, 3), "q": (24, 24), "s": (3, 3)}    # ... and 400K + 399 (52 weeks, year before a leap century year)
+
+
+def dump_jobs(th):
+    J = []
+    z14 = (-14, 14)
+    g = "gregorian"
+    D = lambda **k: J.append(("job_dump", k))
+    # year boundary, leap day, first days: calendar forms
+    D(mode=g, src_rep="cal", dform="cal-ext", tform="ext", zone="+05:30", ranges={"M": (12, 12), "D": (30, 31)}, tzh=z14)
+    D(mode=g, src_rep="cal", dform="cal-bas", tform="bas", zone="-99:59", ranges={"M": (1, 1), "D": (1, 4)}, tzh=z14)
+    D(mode=g, src_rep="cal", dform="xcal-ext", tform="ext", zone="-00:30", ranges={"M": (2, 2), "D": (28, 29)}, tzh=z14)
+    D(mode=g, src_rep="cal", dform="cal-ext", tform="ext", zone="Z", ranges={"M": (3, 3), "D": (1, 1)}, tzh=z14)
+    D(mode=g, src_rep="cal", dform="cal-ext", tform="bas", zone="-0330", ranges={"M": (2, 2), "D": (28, 29)}, tzh=z14)
+    D(mode=g, src_rep="cal", dform="cal-bas", tform="ext", zone="+99:59", ranges={"M": (12, 12), "D": (27, 28)}, tzh=z14)
+    # ordinal forms
+    D(mode=g, src_rep="ord", dform="ord-ext", tform="ext", zone="Z", ranges={"DOY": (365, 366)}, tzh=z14)
+    D(mode=g, src_rep="ord", dform="xord-bas", tform="bas", zone="+14", ranges={"DOY": (1, 1)}, tzh=z14)
+    D(mode=g, src_rep="ord", dform="ord-bas", tform="bas", zone="-23:59", ranges={"DOY": (1, 2)}, tzh=z14)
+    D(mode=g, src_rep="ord", dform="ord-ext", tform="ext", zone="+00:45", ranges={"DOY": (59, 61)}, tzh=z14)
+    # week forms (year residue pinned, cycle index symbolic) and representation changes made by the format
+    D(mode=g, src_rep="week", dform="week-bas", tform="bas", zone="+1245", ranges=dict(W_PINS, W=(1, 1)), tzh=z14)
+    D(mode=g, src_rep="week", dform="week-ext", tform="ext", zone="Z", ranges=dict(W_PINS, W=(52, 53)), tzh=z14)
+    D(mode=g, src_rep="week", dform="week-ext", tform="ext", zone="-01:00", ranges=dict(W_PINS2, W=(52, 52)), tzh=z14)
+    D(mode=g, src_rep="week", dform="cal-ext", tform="ext", zone="-12", ranges=dict(W_PINS, W=(52, 53)), tzh=z14)
+    D(mode=g, src_rep="cal", dform="week-ext", tform="ext", zone="+01", ranges=dict(W_PINS, M=(12, 12), D=(28, 31)), tzh=z14)
+    D(mode=g, src_rep="ord", dform="cal-bas", tform="bas", zone="+00:00", ranges={"DOY": (59, 60)}, tzh=z14)
+    # other calendars
+    D(mode="360day", src_rep="cal", dform="ord-ext", tform="ext", zone="+00:45", ranges={"M": (12, 12), "D": (29, 30)}, tzh=z14)
+    D(mode="360day", src_rep="cal", dform="cal-ext", tform="ext", zone="-0330", ranges={"M": (2, 2), "D": (29, 30)}, tzh=z14)
+    D(mode="365day", src_rep="ord", dform="cal-ext", tform="ext", zone="+14", ranges={"DOY": (364, 365)}, tzh=z14)
+    D(mode="366day", src_rep="cal", dform="ord-bas", tform="bas", zone="-12", ranges={"M": (2, 3), "D": (1, 1)}, tzh=z14)
+    if th:
+        full = (-99, 99)
+        for zone in ZONES:
+            D(mode=g, src_rep="cal", dform="cal-ext", tform="ext", zone=zone, ranges={"M": (12, 12), "D": (30, 31)}, tzh=full)
+            D(mode=g, src_rep="cal", dform="cal-bas", tform="bas", zone=zone, ranges={"M": (1, 1), "D": (1, 2)}, tzh=full)
+            D(mode=g, src_rep="ord", dform="ord-ext", tform="ext", zone=zone, ranges={"DOY": (365, 366)}, tzh=full)
+            D(mode=g, src_rep="ord", dform="xord-bas", tform="bas", zone=zone, ranges={"DOY": (1, 1)}, tzh=z14)
+            D(mode=g, src_rep="week", dform="week-ext", tform="ext", zone=zone, ranges=dict(W_PINS, W=(52, 53)), tzh=full)
+            D(mode=g, src_rep="week", dform="week-bas", tform="bas", zone=zone, ranges=dict(W_PINS2, W=(1, 1)), tzh=full)
+        for m in range(1, 13):
+            D(mode=g, src_rep="cal", dform="cal-ext", tform="ext", zone="+05:30", ranges={"M": (m, m)}, tzh=z14)
+            D(mode="360day", src_rep="cal", dform="cal-bas", tform="bas", zone="-0330", ranges={"M": (m, m)}, tzh=z14)
+    return J
+
+
 def jobs(tier):
     th = tier == "thorough"
-    J = []
+    J = dump_jobs(th)
     doys = [(1, 40), (41, 320), (321, 366)]
     for mode in C.MODES4:
         greg = mode == "gregorian"
@@ -166,6 +405,8 @@ def jobs(tier):
 
 
 def job_weight(fn, kw):
+    if fn == "job_dump":
+        return 90
     if kw.get("direct"):
         return 100
     return {"week": 80, "cal": 40, "ord": 60}[kw["rep"]] if not kw.get("utc") else 10
@@ -177,14 +418,21 @@ INFO = {
                    "per path: valid fields with 0<=h<24, representation kept, exactly the requested offset, same instant. "
                    "'Compares equal / hashes equal / zero difference' then follow from C02 and C04 (comparison, hash and "
                    "difference are functions of the instant there); they are also run directly through the real operators "
-                   "on a reduced domain.",
-    "bounds": {"quick": {"years": "-1 000 000..999 999", "offsets": "source and destination -99:59..+99:59 (week dates: +-14:59)",
+                   "on a reduced domain. job_dump: TimePointDumper.dump(p, <date>T<time><literal zone>) for a symbolic point: the "
+                   "text is decoded digit by digit and must spell valid local fields that, read in the literal zone, denote "
+                   "the instant of p, in the format's shape and ending with the literal.",
+    "bounds": {"quick": {"dump formats": "20 jobs: 9 date forms x basic/extended time x 14 literal zones (Z, +-hh, +-hhmm, "
+                                         "+-hh:mm, -00:30, +-99:59) in windows around New Year, the leap day and week 1/52/53; "
+                                         "years 1..9998 (4 digits) or +-999 998 (expanded), source offsets +-14:59; week-date "
+                                         "points with the year residue pinned (400K+20, 400K+399)",
+                         "years": "-1 000 000..999 999", "offsets": "source and destination -99:59..+99:59 (week dates: +-14:59)",
                          "dates": "ordinal: all; calendar: all months (gregorian), Feb and Dec (other modes); week dates: gregorian",
                          "direct ==/-": "gregorian ordinal days 1-3 and 364-366, offsets +-14:59"},
                "thorough": {"dates": "calendar all months in all modes; week dates in all modes with offsets +-30:59"}},
-    "outside": ["dumping with a literal zone in the format string (string layer; see C08/C17 status in DESIGN.md)",
+    "outside": ["literal-zone dump formats: arbitrary offsets inside format strings and dates away from the listed windows "
+                "(the literal spellings are a fixed set of 14; the re-parse of such dumps is C08's job_format)",
                 "to_local_time_zone (checked under C18 with the stubbed system zone)", "fractional seconds"],
     "assumptions": ["get_days_in_year_range runs as its closed form (discharged by C03 in the same source state)"],
 }
 REQUIRED_SCENARIOS = {"all": ["24:00 input", "same offset requested", "24:00 input, same offset", "destination -00:mm",
-                              "destination beyond a day"]}
+                              "destination beyond a day", "dump: 24:00 input", "dump: point already in the literal zone"]}
